@@ -1729,7 +1729,10 @@ class Interp:
         n = int(np.prod(shape)) if shape else 1
         for idx in np.ndindex(*a.shape):
             for j, sub in enumerate(np.ndindex(*shape)):
-                out[idx + sub] = Key.split(a[idx], z3.IntVal(j))
+                # with the default (partitionable) threefry implementation split(k, n)[j] IS fold_in(k, j) - measured on this
+                # JAX version - so both derivations must produce the same key term, or collisions between a vmap element's
+                # key and a sibling's fold_in key would be invisible to the key-separation queries
+                out[idx + sub] = Key.fold_in(a[idx], z3.IntVal(j))
         del n
         return [out]
 
